@@ -59,6 +59,19 @@ MUTANTS = [
     ('o_prepare_selector', ['C13', 'C01'], 'C', [(O, 'return (cur & kAllLockMask) ? CompositeGuard{this, static_cast<uint32_t>(cur)}\n                              : CompositeGuard{this};', 'return (cur & kSMask) ? CompositeGuard{this, static_cast<uint32_t>(cur)}\n                              : CompositeGuard{this};', 1)], 'PrepareRead: SIX-held word selects the owning constructor without a CAS'),
     ('o_composite_verify_locked', ['C13'], 'C13.VERIFY', [(O, '  if (has_lock_) return true;\n', '  if (has_lock_) return false;\n', 1)], 'VerifyVersion fails for a guard holding a shared grant'),
     ('o_composite_dtor', ['C07', 'C13'], 'C07', [(O, 'OptimisticLock::CompositeGuard::~CompositeGuard()\n{\n  if (has_lock_) {', 'OptimisticLock::CompositeGuard::~CompositeGuard()\n{\n  if (dest_ != nullptr) {', 1)], 'composite destructor releases S for version-only guards'),
+    ('m_lockx_wait_xmask', ['C01', 'C11'], 'MCS.WAIT', [(M, 'return (lock->load(kAcquire) & kLockMask) == kNoLocks;', 'return (lock->load(kAcquire) & kXMask) == kNoLocks;', 1)], 'MCS LockX does not wait for the shared holders ahead of it'),
+    ('m_inherit_x_only', ['C01', 'C11'], 'MCS.INH', [(M, 'qnode->lock_.fetch_xor(kXLock ^ (cur & kLockMask), kRelaxed);', 'qnode->lock_.fetch_xor(kXLock ^ (cur & kXMask), kRelaxed);', 0)], 'new node inherits only X/SIX, not the shared count'),
+    ('m_pubstore', ['C02'], 'C02.PUBSTORE', [(M, 'qnode->lock_.fetch_xor(kXLock ^ (cur & kLockMask), kRelaxed);', 'qnode->lock_.store(cur & kLockMask, kRelaxed);', 0)], 'blind store after publication (the pinned defect D2)'),
+    ('m_unlocks_leak', ['C12'], 'C12.REL', [(M, '(next->lock_.fetch_sub(kSLock, kRelease) & kLockMask) == kSLock', '(next->lock_.fetch_sub(kSLock, kRelease) & kSMask) == kNoLocks', 1)], 'reclaim predicate never true (the pinned defect D3)'),
+    ('m_unlocks_tail_relaxed', ['C08'], 'C08.REL', [(M, 'if (lock_.compare_exchange_weak(cur, unlock, kRelease, kRelaxed)) return;', 'if (lock_.compare_exchange_weak(cur, unlock, kRelaxed, kRelaxed)) return;', 1)], 'relaxed S release on the tail path'),
+    ('m_upgrade_drain_relaxed', ['C08'], 'C08.ACQ', [(M, '*next_ptr = lock->load(kAcquire);\n        return (*next_ptr & kSMask) == kNoLocks;\n      },\n      &(qnode_->lock_), &next_ptr);', '*next_ptr = lock->load(kRelaxed);\n        return (*next_ptr & kSMask) == kNoLocks;\n      },\n      &(qnode_->lock_), &next_ptr);', 1)], 'upgrade drain load relaxed'),
+    ('m_unlockx_early_recycle', ['C12'], 'C12.REL', [(M, 'if ((next->lock_.fetch_xor(kXLock, kRelease) & kSMask) == kNoLocks) {', 'if ((next->lock_.fetch_xor(kXLock, kRelease) & kXMask) != kNoLocks) {', 1)], 'X release recycles the node while shared members of the group still use it'),
+    ('m_locks_no_reset', ['C12'], 'C12.ACQ', [(M, '  tls_node_.reset(qnode);\n  tail_ptr = cur & kPtrMask;', '  tail_ptr = cur & kPtrMask;', 1)], 'joining shared request drops its unused node'),
+    ('m_unlocksix_no_drain', ['C01'], 'MCS.DRAIN', [(M, '        *next_ptr = lock->load(kAcquire);\n        return (*next_ptr & kSMask) == kNoLocks;\n      },\n      &(qnode->lock_), &next_ptr);', '        *next_ptr = lock->load(kAcquire);\n        return true;\n      },\n      &(qnode->lock_), &next_ptr);', 1)], 'SIX release does not wait for the shared holders ahead of it'),
+    ('m_downgrade_two_writes', ['C10'], 'C10.NOGAP', [(M, '  next->lock_.fetch_xor(kXMask, kRelease);\n  return SIXGuard{dest, qnode_};', '  next->lock_.fetch_xor(kXLock, kRelease);\n  next->lock_.fetch_xor(kSIXLock, kRelease);\n  return SIXGuard{dest, qnode_};', 1)], 'downgrade clears X and sets SIX in two steps'),
+    ('m_unlockx_tail_noclear', ['C01', 'C02'], 'MCS.CLR', [(M, 'if (lock_.compare_exchange_weak(cur, cur ^ kXLock, kRelease, kRelaxed)) return;', 'if (lock_.compare_exchange_weak(cur, cur, kRelease, kRelaxed)) return;', 1)], 'X release leaves the X flag on the lock word'),
+    ('m_upgrade_null_node', ['C07', 'C10'], 'C07.CONV', [(M, '  next->lock_.fetch_xor(kXMask, kRelaxed);\n  return XGuard{dest, qnode_};', '  next->lock_.fetch_xor(kXMask, kRelaxed);\n  return XGuard{dest, nullptr};', 1)], 'upgraded guard loses its queue node'),
+    ('m_locksix_cas_tail', ['C11'], 'C11.TAIL', [(M, '  const auto cur = lock_.exchange(new_tail | kSIXLock, kAcquire);', '  auto cur = lock_.load(kRelaxed);\n  while (!lock_.compare_exchange_weak(cur, (cur & kSMask) ? cur : (new_tail | kSIXLock), kAcquire, kRelaxed) || (cur & kSMask)) {\n  }', 1)], 'SIX arrival retries instead of swapping the tail unconditionally: later shared requests overtake it'),
 ]
 
 REFACTORS = [
@@ -69,6 +82,9 @@ REFACTORS = [
     ('r_p_lockx_mask_spelled', ['C01'], [(P, 'return cur == kNoLocks\n', 'return (cur & ~0UL) == 0UL\n', 1)], 'same predicate spelled with a mask'),
     ('r_p_seqcst', ['C08'], [(P, 'lock_.fetch_sub(kSLock, kRelease);', 'lock_.fetch_sub(kSLock);', 1)], 'default (seq_cst) order'),
     ('r_o_unlocks_add_neg', ['C01'], [(O, 'lock_.fetch_sub(kSLock, kRelease);', 'lock_.fetch_add(~kSLock + 1UL, kRelease);', 1)], 'fetch_add of the two\'s complement (unsupported idiom is acceptable, a violation is not)'),
+    ('r_m_unlockx_and', ['C01', 'C12', 'C08'], [(M, 'next->lock_.fetch_xor(kXLock, kRelease)', 'next->lock_.fetch_and(~kXLock, kRelease)', 1)], 'fetch_and(~X) instead of fetch_xor(X) on the successor node'),
+    ('r_m_exchange_acqrel', ['C08', 'C11'], [(M, 'lock_.exchange(new_tail | kXLock, kAcquire)', 'lock_.exchange(new_tail | kXLock, std::memory_order_acq_rel)', 1)], 'stronger order'),
+    ('r_m_unlocks_pred_spelled', ['C12'], [(M, '(next->lock_.fetch_sub(kSLock, kRelease) & kLockMask) == kSLock', '((next->lock_.fetch_sub(kSLock, kRelease) - kSLock) & kLockMask) == kNoLocks', 1)], 'reclaim predicate spelled differently'),
 ]
 
 
